@@ -234,7 +234,6 @@ pub open spec fn is_marker(f: Frame, topic: Seq<char>, ctx: Option<Scru128Id>) -
         sent_of(rx.log) =~= sent_of(old(rx).log) + live_of(hist_frames().take(consumed(&vx_it))), //# read.history.delivers_live_in_order
         gc_of(rx.log) =~= gc_of(old(rx).log) + expired_ids(hist_frames().take(consumed(&vx_it))), //# read.history.remove_only_expired
         !has_done(rx.log), hist_frames().len() < usize::MAX, sent_of(old(rx).log).len() <= sent_of(rx.log).len(),
-    ensures fi_rest(&vx_it).len() == 0,
     decreases fi_rest(&vx_it).len(),
 //@@ loop_top: for frame in
     broadcast use lemma_sent_push, lemma_gc_push, lemma_done_push;
@@ -257,6 +256,7 @@ pub open spec fn is_marker(f: Frame, topic: Seq<char>, ctx: Option<Scru128Id>) -
         assert(new_sent(old(rx), rx) =~= live_of(hist_frames()));
     }
 //@@ header
+#[verifier::loop_isolation(false)]
 fn read_history(store: Store, options: ReadOptions, should_follow_clone: bool, gc_tx: GcSender, tx_clone: FrameSender,
                 done_tx: DoneSender, Tracked(rx): Tracked<&mut Rx>)
     requires !has_done(old(rx).log),
@@ -316,24 +316,17 @@ pub open spec fn live_limit_post(rx0: &Rx, rx1: &Rx, limit: Option<usize>, done:
 //@@ inner
 //@@ strip: await
 //@@ loop_spec: while let Ok(frame) =
-    invariant_except_break
+    invariant
         rx.send_errs == old(rx).send_errs, !has_lag(rx.log), //# read.live.lagged_ends_stream
         sn =~= wanted_of(g, options.context_id, last_id), //# read.live.forwards_exactly_wanted_in_order
         limit matches Some(l) ==> count0 + sn.len() == count, //# read.live.counts_deliveries
         limit matches Some(l) ==> (count < l || (count == l && count0 == l && sn.len() == 0)), //# read.live.limit_exact
-    invariant
         recv_of(rx.log) =~= recv_of(old(rx).log) + g, sent_of(rx.log) =~= sent_of(old(rx).log) + sn,
         limit matches Some(l) ==> count0 <= l, count0 < usize::MAX, count0 == (match done_rx { Some(Ok(p)) => p.1 as int, _ => 0 }),
         old(rx).send_errs <= rx.send_errs,
         // (instances of lemma_*_push needed where the loop condition is evaluated)
         forall|l: Seq<RxEv>, n: u64| sent_of(#[trigger] l.push(RxEv::Lagged(n))) == sent_of(l) && recv_of(l.push(RxEv::Lagged(n))) == recv_of(l)
             && has_lag(l.push(RxEv::Lagged(n))),
-    ensures
-        has_lag(rx.log) ==> rx.log.last() is Lagged, //# read.live.lagged_ends_stream
-        rx.send_errs == old(rx).send_errs ==> sn =~= wanted_of(g, options.context_id, last_id),
-        rx.send_errs > old(rx).send_errs ==> g.len() > 0 && sn =~= wanted_of(g.drop_last(), options.context_id, last_id),
-        limit matches Some(l) ==> (count0 + sn.len() <= l || (count0 == l && sn.len() <= 1)),
-        count0 < (match limit { Some(l) => l as int, None => count0 + 1 }) ==> (limit matches Some(l) ==> count0 + sn.len() <= l),
     decreases rx.bcast.len(),
 //@@ before_stmt?: let mut broadcast_rx =
     let ghost count0: int = count as int;
@@ -355,6 +348,7 @@ pub open spec fn live_limit_post(rx0: &Rx, rx1: &Rx, limit: Option<usize>, done:
         sn = sn.push(frame);
     }
 //@@ header
+#[verifier::loop_isolation(false)]
 fn read_live(options: ReadOptions, limit: Option<usize>, tx: FrameSender, broadcast_rx: BroadcastReceiver,
              done_rx: Option<Result<(Option<Scru128Id>, usize), RecvError>>, Tracked(rx): Tracked<&mut Rx>)
     requires !has_lag(old(rx).log),
@@ -414,6 +408,7 @@ pub fn sleep_stub(d: Duration) { unimplemented!() }
     broadcast use lemma_sent_push, lemma_gc_push, lemma_done_push;
 //@@ header
 #[verifier::exec_allows_no_decreases_clause]
+#[verifier::loop_isolation(false)]
 fn read_heartbeat(duration: Duration, options: ReadOptions, heartbeat_tx: FrameSender, Tracked(rx): Tracked<&mut Rx>)
     requires !has_done(old(rx).log),
     ensures
